@@ -89,3 +89,67 @@ def scenarios():
     out.append(privkey_pubkey(1, True))
     out.append(privkey_pubkey(18, True))
     return out
+
+
+def key_pubkey():
+    """PGPKey.pubkey on a private key: what the derived public key is assembled from"""
+    label = 'C07/PGPKey.pubkey[private key: shell, public packet, subkeys, identities, key signatures]'
+    KEY, UID, SIG = 'pgpy.pgp.PGPKey', 'pgpy.pgp.PGPUID', 'pgpy.pgp.PGPSignature'
+
+    def gen(repo):
+        r = scn.Run(repo, KEY, 'pubkey', label)
+        ex, st = r.ex, r.st
+        me = E.VObj(KEY, 'secretkey')
+        r.hook(KEY, 'is_public', lambda ex, st, o, a: [(st, E.VBool(o.ref != 'secretkey' and o.ref != 'secretsub'))])
+        r.set('secretkey', '_sibling', E.VNone())
+        SECPKT, PUBPKT = E.VObj('pgpy.packet.packets.PrivKeyV4', 'secret-packet'), E.VObj('pgpy.packet.packets.PubKeyV4', 'public-packet')
+        r.set('secretkey', '_key', SECPKT)
+        r.hook('pgpy.packet.packets.PrivKeyV4', 'pubkey', scn.mconst(PUBPKT))          # contract proved above (PrivKeyV4.pubkey)
+        r.set('secretkey', 'ascii_headers', E.VDict([]))
+        sub, subpub = E.VObj(KEY, 'secretsub'), E.VObj(KEY, 'public-sub')
+        r.hook(KEY, 'subkeys', lambda ex, st, o, a: [(st, E.VDict([(E.VStr(s='SUBID'), sub)]) if o.ref == 'secretkey' else E.VDict([]))])
+        r.hook(KEY, 'pubkey', lambda ex, st, o, a: [(st, subpub if o.ref == 'secretsub' else o)])
+        uid, ua = E.VObj(UID, 'user-id'), E.VObj(UID, 'user-attribute')
+        r.set('secretkey', '_uids', ex.new_list(st, [uid, ua]))
+        ksig, usig = E.VObj(SIG, 'key-signature'), E.VObj(SIG, 'uid-signature')
+        r.set('secretkey', '_signatures', ex.new_list(st, [ksig, usig]))
+        r.hook(SIG, 'parent', lambda ex, st, o, a: [(st, E.VNone() if o.ref == 'key-signature' else uid)])
+        r.hook('pgpy.types.ParentRef', 'parent', lambda ex, st, o, a: [(st, E.VNone())])
+        copies = {}
+
+        def cp(ex, st, o, a):
+            c = E.VObj(o.cls, 'copy-of-' + str(o.ref))           # contract of __copy__: a new object of the same class (contents: C14)
+            copies[c.ref] = o
+            return [(st, c)]
+        r.hook(UID, '__copy__', scn.method_hook(cp))
+        r.hook(SIG, '__copy__', scn.method_hook(cp))
+        r.hook(KEY, '__call__', lambda ex, st, c, a: [(st, E.VObj(KEY, 'pub'))])
+
+        def ior(ex, st, o, a):
+            st.ghost['attached'] = st.ghost.get('attached', ()) + ((o.ref, a[0]),)
+            return [(st, o)]
+        r.hook(KEY, '__or__', scn.method_hook(ior))
+        r.hook(KEY, '__ior__', scn.method_hook(ior))
+        for pi, (s, v) in enumerate(r.call(me, [])):
+            if isinstance(v, E.Raise):
+                r.oblige(s, 'safety(%s)/p%d' % (v.exc.split(':')[0], pi), z3.BoolVal(False), v.where)
+                continue
+            r.oblige(s, 'returns-the-new-public-key/p%d' % pi, z3.BoolVal(isinstance(v, E.VObj) and v.ref == 'pub'))
+            r.oblige(s, 'its-packet-is-the-public-half-of-this-key-packet/p%d' % pi, z3.BoolVal(s.heap.get(('pub', '_key')) is PUBPKT))
+            att = [x for tgt, x in s.ghost.get('attached', ()) if tgt == 'pub']
+            refs = [str(x.ref) for x in att if isinstance(x, E.VObj)]
+            r.oblige(s, 'attached:public-half-of-every-subkey,then-a-copy-of-EVERY-identity(user-ids-and-attributes),then-copies-of-the-key-signatures/p%d' % pi,
+                     z3.BoolVal(refs == ['public-sub', 'copy-of-user-id', 'copy-of-user-attribute', 'copy-of-key-signature']))
+            r.oblige(s, 'no-secret-object-is-attached/p%d' % pi, z3.BoolVal(not any(x is sub or x is SECPKT or x is me for x in att)))
+            sib, back = s.heap.get(('secretkey', '_sibling')), s.heap.get(('pub', '_sibling'))
+            r.oblige(s, 'the-halves-reference-each-other/p%d' % pi,
+                     z3.BoolVal(isinstance(sib, E.VExt) and sib.name == 'weakref.ref' and sib.args[0] is v and isinstance(back, E.VExt) and back.args[0] is me))
+        return r.result()
+    return Scenario(label, KEY + '.pubkey', gen, props=('C07', 'C14', 'C18'))
+
+
+_base_scn_p = scenarios
+
+
+def scenarios():
+    return _base_scn_p() + [key_pubkey()]
